@@ -330,7 +330,7 @@ def py_eval(e, sc, vc, trace=None, fnt=None, eager=False):
                 raise EvalError('type')
             if hi - lo > 64:
                 raise EvalError('big')
-            if hi < lo - 1 and fnt is not None:
+            if hi < lo and fnt is not None:
                 fnt.append(('reversed', lo, hi))
             r = F(0)
             for kk in range(int(lo), int(hi) + 1):
